@@ -11,21 +11,114 @@ import StunVerif.Lemmas.Utf8
 namespace StunVerif.Utf8
 open StunVerif
 
+open Utf8L in
+/-- the fuel-bounded scan decides "concatenation of scalar encodings" whenever the fuel covers the length -/
+theorem utf8ValidF_iff (fuel : Nat) : ∀ bs : Bytes, bs.length ≤ fuel →
+    (utf8ValidF fuel bs = true ↔
+      ∃ cps : List Nat, (∀ c ∈ cps, Spec.isScalar c = true) ∧ bs = cps.flatMap Spec.utf8Encode) := by
+  induction fuel with
+  | zero =>
+    intro bs hl
+    have : bs = [] := List.eq_nil_of_length_eq_zero (by omega)
+    subst this
+    simp only [utf8ValidF, true_iff]
+    exact ⟨[], by simp, by simp⟩
+  | succ fuel ih =>
+    intro bs hl
+    match bs, hl with
+    | [], _ =>
+      simp only [utf8ValidF, true_iff]
+      exact ⟨[], by simp, by simp⟩
+    | b :: bs', hl =>
+      generalize hbs : b :: bs' = bs at hl
+      have hne : bs ≠ [] := by rw [← hbs]; simp
+      have hstep : utf8ValidF (fuel + 1) bs =
+          if utf8Head bs = 0 then false else utf8ValidF fuel (bs.drop (utf8Head bs)) := by
+        rw [← hbs]; simp only [utf8ValidF]
+      rw [hstep]
+      by_cases h0 : utf8Head bs = 0
+      · rw [if_pos h0]
+        constructor
+        · intro h; exact absurd h (by simp)
+        · rintro ⟨cps, hsc, he⟩
+          exfalso
+          match cps, hsc, he with
+          | [], _, he => exact hne (by simpa using he)
+          | c :: cs, hsc, he =>
+            rw [List.flatMap_cons] at he
+            have := head_encode c (hsc c (by simp)) (cs.flatMap Spec.utf8Encode)
+            rw [← he, h0] at this
+            have := encode_length_pos c
+            omega
+      · rw [if_neg h0]
+        have hpos : 0 < utf8Head bs := Nat.pos_of_ne_zero h0
+        have hlen : (bs.drop (utf8Head bs)).length ≤ fuel := by
+          rw [List.length_drop]
+          have : 0 < bs.length := List.length_pos_iff.mpr hne
+          omega
+        rw [ih _ hlen]
+        constructor
+        · rintro ⟨cps, hsc, he⟩
+          obtain ⟨c, hc, hb⟩ := head_decode bs h0
+          refine ⟨c :: cps, ?_, ?_⟩
+          · intro x hx
+            rcases List.mem_cons.mp hx with rfl | hx
+            · exact hc
+            · exact hsc x hx
+          · rw [List.flatMap_cons, ← he]; exact hb
+        · rintro ⟨cps, hsc, he⟩
+          match cps, hsc, he with
+          | [], _, he => exact absurd (by simpa using he) hne
+          | c :: cs, hsc, he =>
+            refine ⟨cs, fun x hx => hsc x (List.mem_cons_of_mem _ hx), ?_⟩
+            rw [List.flatMap_cons] at he
+            have hh := head_encode c (hsc c (by simp)) (cs.flatMap Spec.utf8Encode)
+            rw [← he] at hh
+            rw [hh, he, List.drop_left]
+
 /-- soundness and completeness of the validator against the RFC 3629 encoder -/
 theorem utf8Valid_iff (bs : Bytes) :
-    utf8Valid bs = true ↔ ∃ cps : List Nat, (∀ c ∈ cps, Spec.isScalar c = true) ∧ bs = cps.flatMap Spec.utf8Encode := by
-  sorry
+    utf8Valid bs = true ↔ ∃ cps : List Nat, (∀ c ∈ cps, Spec.isScalar c = true) ∧ bs = cps.flatMap Spec.utf8Encode :=
+  utf8ValidF_iff bs.length bs (Nat.le_refl _)
 
 /-- the encoding of a scalar value is recognised as one sequence of the right length -/
 theorem head_of_encode (c : Nat) (h : Spec.isScalar c = true) (rest : Bytes) :
-    utf8Head (Spec.utf8Encode c ++ rest) = (Spec.utf8Encode c).length := by
-  sorry
+    utf8Head (Spec.utf8Encode c ++ rest) = (Spec.utf8Encode c).length :=
+  Utf8L.head_encode c h rest
 
+open Utf8L in
 /-- decoding is unambiguous: two scalar sequences with the same encoding are equal -/
 theorem encode_injective (cps cps' : List Nat) (h : ∀ c ∈ cps, Spec.isScalar c = true)
     (h' : ∀ c ∈ cps', Spec.isScalar c = true)
     (he : cps.flatMap Spec.utf8Encode = cps'.flatMap Spec.utf8Encode) : cps = cps' := by
-  sorry
+  induction cps generalizing cps' with
+  | nil =>
+    match cps', he with
+    | [], _ => rfl
+    | c' :: cs', he =>
+      exfalso
+      have := encode_length_pos c'
+      have hl := congrArg List.length he
+      simp only [List.flatMap_nil, List.flatMap_cons, List.length_nil, List.length_append] at hl
+      omega
+  | cons c cs ih =>
+    match cps', h', he with
+    | [], _, he =>
+      exfalso
+      have := encode_length_pos c
+      have hl := congrArg List.length he
+      simp only [List.flatMap_nil, List.flatMap_cons, List.length_nil, List.length_append] at hl
+      omega
+    | c' :: cs', h', he =>
+      rw [List.flatMap_cons, List.flatMap_cons] at he
+      have hc := h c (by simp)
+      have hc' := h' c' (by simp)
+      have hd := congrArg decode1 he
+      rw [decode_encode c hc, decode_encode c' hc'] at hd
+      subst hd
+      have := List.append_cancel_left he
+      rw [ih cs' (fun x hx => h x (List.mem_cons_of_mem _ hx))
+        (fun x hx => h' x (List.mem_cons_of_mem _ hx)) this]
 
 example : utf8Valid [0xE2, 0x82, 0xAC] = true ∧ utf8Valid [0xC0, 0x80] = false ∧
     utf8Valid [0xED, 0xA0, 0x80] = false ∧ utf8Valid [0xF4, 0x90, 0x80, 0x80] = false ∧
